@@ -578,19 +578,31 @@ theorem stepDataset_safe (cfg : Cfg) (a : Acc) (h : SlotsOk a.st.tab) (d : Chunk
         · refine Safe.bind (decodeNode_safe cfg _ h payload) ?_
           rintro ⟨o, st⟩ hs
           exact hs
-        · exact h
+        · split
+          · exact h
+          · refine Safe.bind (decodeNode_safe cfg _ h payload) ?_
+            rintro ⟨o, st⟩ hs
+            exact hs
       · split
         · split
           · refine Safe.bind (decodeWay_safe cfg _ h payload) ?_
             rintro ⟨o, st⟩ hs
             exact hs
-          · exact h
+          · split
+            · exact h
+            · refine Safe.bind (decodeWay_safe cfg _ h payload) ?_
+              rintro ⟨o, st⟩ hs
+              exact hs
         · split
           · split
             · refine Safe.bind (decodeRelation_safe cfg _ h payload) ?_
               rintro ⟨o, st⟩ hs
               exact hs
-            · exact h
+            · split
+              · exact h
+              · refine Safe.bind (decodeRelation_safe cfg _ h payload) ?_
+                rintro ⟨o, st⟩ hs
+                exact hs
           · split
             · refine Safe.bind (decodeBbox_safe payload) ?_
               intro b _
